@@ -4,12 +4,13 @@
 -/
 import JRV.Driver.Registry
 import JRV.Driver.Client
+import JRV.Driver.Payload
 
 namespace JRV.Driver
 
 def components : List (String × (List String → String)) := [
   ("echo", echo), ("norm", norm), ("truthy", truthyC), ("pyeq", pyeqC), ("cmpint", cmpIntC)
-] ++ clientComponents
+] ++ clientComponents ++ payloadComponents
 
 def handle (line : String) : String :=
   match JRV.Codec.tokens line with
